@@ -1,6 +1,7 @@
 import KoordVerif.Proofs.C15ExtMin
 import KoordVerif.Proofs.C15ExtNs
 import KoordVerif.Proofs.C15ExtUp
+import KoordVerif.Proofs.C15ExtInf
 /-
 C15 — property theorems (DESIGN.md §4 C15, Appendix A.7).
 
@@ -474,5 +475,348 @@ example : (stepRaw 1 exS (.upd (rawA 0 1) false [])).2 = true ∧ (stepRaw 1 exS
 -- a failing pod listing, or a pod carrying the label, blocks the delete of the leaf B
 example : (stepRaw 1 exS (.del 4 false [])).2 = true ∧ (stepRaw 1 exS (.del 4 true [])).2 = false ∧
           (stepRaw 1 exS (.del 4 false [{ nsKind := 1, ns := 5, label := some 4 }])).2 = false := by decide
+
+
+/-! ## 11–13. informer glue: the handlers OnQuotaAdd / OnQuotaUpdate / OnQuotaDelete (Model/C15Inf.lean)
+
+The webhook runs in several replicas; every replica re-writes its recorded topology, unchecked, from the informer
+events of the admitted objects.  `Equiv s t` (Proofs/C15ExtInf.lean) = same info list, same key set, same child
+pairs, same namespace lookups — everything `WF` and the dump can see of a state.
+  §11 one replica: the event of an admitted request reaches the admitting replica right after (`stepEcho`): it changes
+      nothing observable (`echo_observably_idle`), so every history keeps `WF` (`history_echo_WF`).
+  §12 two replicas behind one API server, handlers behind an event filter `flt` (`sysStep`): if the filter drops only
+      update events whose old and new object agree on every topology-relevant field (`FilterOK`; the identity filter of
+      today's NewQuotaInformer — tie_informer_unfiltered), both replicas stay well-formed and equal to the fold of the
+      admitted objects after every request (`replicas_converge`).  A generation-changed filter is NOT such a filter
+      (`genFilter_not_ok`) and lets the second replica delete a parent that still has a child
+      (`generation_filter_counterexample`).
+  §13 explicit hypothesis `FlagsKept` (decidable; the harness tags every history with whether it held): an update whose
+      compared fields are unchanged (accepted by the shortcut, i.e. without any check) does not change the two bypass
+      labels.  Without it the echo re-records the labels and the recorded-flag form of `MinSum` fails
+      (`flag_drop_counterexample`): dropping allow-force-update from a quota that was forced over its parent's min
+      leaves the violation in the tree with no label marking it.  The harness oracle therefore exempts by its own
+      bookkeeping (c15Book.taint) in histories with informer events.
+-/
+
+
+/-! ### 7. `WF` only observes the state up to `Equiv`; under `WF` the three maps are functions of `info` -/
+
+theorem wf_equiv {d : Nat} {s t : Topo} (h : Equiv s t) (hW : WF d s) : WF d t := by
+  obtain ⟨hi, hh, hk, hn⟩ := h
+  cases s with
+  | mk si sh sk sn =>
+  cases t with
+  | mk ti th tk tn =>
+  simp only at hi hh hk hn
+  subst hi
+  refine ⟨⟨hW.forest.nodup, hW.forest.nonzero, hW.forest.parentOK, hW.forest.ranked, ?_⟩, ?_, hW.self, hW.minSum,
+    hW.keys, hW.tree, ?_⟩
+  · intro p c
+    exact (hk (p, c)).symm.trans (hW.forest.kidsOK p c)
+  · intro n
+    exact (hh n).symm.trans (hW.hkeys n)
+  · intro n qn
+    have := hW.ns n qn
+    simp only at this ⊢
+    rw [← hn n]
+    exact this
+
+theorem wf_determined {d : Nat} {s t : Topo} (hs : WF d s) (ht : WF d t) (hi : s.info = t.info) : Equiv s t := by
+  refine ⟨hi, ?_, ?_, ?_⟩
+  · intro k
+    rw [hs.hkeys k, ht.hkeys k, hi]
+  · rintro ⟨p, c⟩
+    rw [hs.forest.kidsOK p c, ht.forest.kidsOK p c, hi]
+  · intro n
+    have h1 := hs.ns n
+    have h2 := ht.ns n
+    rw [hi] at h1
+    have h : ∀ qn, nsGet s.nsMap n = some qn ↔ nsGet t.nsMap n = some qn := fun qn => (h1 qn).trans (h2 qn).symm
+    cases hx : nsGet s.nsMap n with
+    | none =>
+      cases hy : nsGet t.nsMap n with
+      | none => rfl
+      | some b => have := (h b).mpr hy; rw [hx] at this; cases this
+    | some a => exact ((h a).mp hx).symm
+
+/-! ### 8. one replica with the echo of its own admissions -/
+
+theorem stepEcho_accept {d : Nat} {s : Topo} {op : Op} {e : Ev} (h : (step d s op).2 = true)
+    (he : evOf s.info op = some e) : stepEcho d s op = (applyEv (step d s op).1 e, true) := by
+  simp [stepEcho, h, he]
+
+theorem stepEcho_snd (d : Nat) (s : Topo) (op : Op) : (stepEcho d s op).2 = (step d s op).2 := by
+  unfold stepEcho
+  cases h : (step d s op).2 with
+  | false => simp [h]
+  | true =>
+    cases evOf s.info op <;> simp [h]
+
+/-- the echo changes nothing observable. -/
+theorem echo_observably_idle (d : Nat) (s : Topo) (op : Op) (hW : WF d s) (hk : FlagsKept s.info op)
+    (h : (stepEcho d s op).2 = true) : Equiv (stepEcho d s op).1 (step d s op).1 := by
+  rw [stepEcho_snd] at h
+  obtain ⟨e, he⟩ := accepted_ev h
+  rw [stepEcho_accept h he]
+  exact echo_equiv (handler_matches hW.forest hW.ns hk h he)
+
+theorem echo_preserves_WF (d : Nat) (s : Topo) (op : Op) (hW : WF d s) (hop : NotRootAdd op)
+    (hk : FlagsKept s.info op) (h : (stepEcho d s op).2 = true) : WF d (stepEcho d s op).1 := by
+  have hE := echo_observably_idle d s op hW hk h
+  rw [stepEcho_snd] at h
+  exact wf_equiv hE.symm (accept_preserves_WF d s op hW hop h)
+
+theorem echo_reject_is_noop (d : Nat) (s : Topo) (op : Op) (h : (stepEcho d s op).2 = false) :
+    (stepEcho d s op).1 = s := by
+  rw [stepEcho_snd] at h
+  have : stepEcho d s op = step d s op := by simp [stepEcho, h]
+  rw [this]
+  exact reject_is_noop d s op h
+
+/-- the hypotheses on a history, request by request along the run. -/
+def EchoOK (d : Nat) : Topo → List Op → Prop
+  | _, [] => True
+  | s, op :: ops => NotRootAdd op ∧ FlagsKept s.info op ∧ EchoOK d (stepEcho d s op).1 ops
+
+theorem history_echo_WF (d : Nat) (ops : List Op) : ∀ s, WF d s → EchoOK d s ops → WF d (runEcho d s ops) := by
+  induction ops with
+  | nil => intro s hs _; exact hs
+  | cons op ops ih =>
+    intro s hs hok
+    obtain ⟨hop, hk, hrest⟩ := hok
+    simp only [runEcho]
+    apply ih _ _ hrest
+    cases hres : (stepEcho d s op).2 with
+    | true => exact echo_preserves_WF d s op hs hop hk hres
+    | false => rw [echo_reject_is_noop d s op hres]; exact hs
+
+theorem reachable_echo_WF (d : Nat) (ops : List Op) (hok : EchoOK d init ops) : WF d (runEcho d init ops) :=
+  history_echo_WF d ops init (wf_init d) hok
+
+/-! ### 9. two replicas behind one API server -/
+
+/-- the event filter may only drop update events whose old and new object agree on every topology-relevant field. -/
+def FilterOK (flt : Ev → Bool) : Prop := ∀ e, flt e = false → ∃ q, e = .upd q q
+
+theorem filterOK_all : FilterOK (fun _ => true) := by
+  intro e h; cases h
+
+structure Synced (d : Nat) (σ : Sys) : Prop where
+  wa : WF d σ.a
+  wb : WF d σ.b
+  ia : σ.a.info = σ.api
+  ib : σ.b.info = σ.api
+
+theorem synced_init (d : Nat) : Synced d sysInit := ⟨wf_init d, wf_init d, rfl, rfl⟩
+
+theorem Synced.equiv {d : Nat} {σ : Sys} (h : Synced d σ) : Equiv σ.a σ.b :=
+  wf_determined h.wa h.wb (h.ia.trans h.ib.symm)
+
+/-- one accepted admission on the handling replica `hd`, seen from the other replica `ot`. -/
+theorem pair_step {d : Nat} {flt : Ev → Bool} {hd ot : Topo} {api : List QI} {op : Op} (hf : FilterOK flt)
+    (wh : WF d hd) (wo : WF d ot) (ih : hd.info = api) (io : ot.info = api) (hop : NotRootAdd op)
+    (hk : FlagsKept api op) (hacc : (stepO d hd api op).2 = true) :
+    ∃ e, evOf api op = some e ∧
+      WF d (deliver flt (stepO d hd api op).1 e) ∧ WF d (deliver flt ot e) ∧
+      (deliver flt (stepO d hd api op).1 e).info = infoEv api e ∧ (deliver flt ot e).info = infoEv api e := by
+  subst ih
+  rw [stepO_self] at hacc ⊢
+  obtain ⟨e, he⟩ := accepted_ev hacc
+  have w1 := accept_preserves_WF d hd op wh hop hacc
+  have E1 := handler_matches wh.forest wh.ns hk hacc he
+  have i1 : (step d hd op).1.info = infoEv hd.info e := by rw [← E1.info, applyEv_info]
+  have Eo : Equiv ot hd := wf_determined wo wh io
+  refine ⟨e, he, ?_, ?_, ?_, ?_⟩
+  all_goals unfold deliver
+  all_goals cases hfe : flt e
+  all_goals simp only [Bool.false_eq_true, if_false, if_true]
+  · exact w1
+  · exact wf_equiv (echo_equiv E1).symm w1
+  · exact wo
+  · exact wf_equiv ((applyEv_congr Eo).trans E1).symm w1
+  · exact i1
+  · rw [(echo_equiv E1).info]; exact i1
+  · obtain ⟨q, rfl⟩ := hf e hfe
+    rw [infoEv_same (uniq_of_nodup wh.forest.nodup) he]
+    exact io
+  · rw [applyEv_info, io]
+
+theorem sys_step_synced (d : Nat) (flt : Ev → Bool) (σ : Sys) (rep : Bool) (op : Op) (hf : FilterOK flt)
+    (hS : Synced d σ) (hop : NotRootAdd op) (hk : FlagsKept σ.api op) : Synced d (sysStep d flt σ rep op).1 := by
+  cases rep with
+  | false =>
+    cases hacc : (stepO d σ.a σ.api op).2 with
+    | false =>
+      have : sysStep d flt σ false op = (σ, false) := by simp [sysStep, hacc]
+      rw [this]; exact hS
+    | true =>
+      obtain ⟨e, he, w1, w2, i1, i2⟩ := pair_step hf hS.wa hS.wb hS.ia hS.ib hop hk hacc
+      have : sysStep d flt σ false op =
+          ({ a := deliver flt (stepO d σ.a σ.api op).1 e, b := deliver flt σ.b e, api := infoEv σ.api e }, true) := by
+        simp [sysStep, hacc, he]
+      rw [this]
+      exact ⟨w1, w2, i1, i2⟩
+  | true =>
+    cases hacc : (stepO d σ.b σ.api op).2 with
+    | false =>
+      have : sysStep d flt σ true op = (σ, false) := by simp [sysStep, hacc]
+      rw [this]; exact hS
+    | true =>
+      obtain ⟨e, he, w1, w2, i1, i2⟩ := pair_step hf hS.wb hS.wa hS.ib hS.ia hop hk hacc
+      have : sysStep d flt σ true op =
+          ({ a := deliver flt σ.a e, b := deliver flt (stepO d σ.b σ.api op).1 e, api := infoEv σ.api e }, true) := by
+        simp [sysStep, hacc, he]
+      rw [this]
+      exact ⟨w2, w1, i2, i1⟩
+
+/-- the hypotheses on a two-replica history, request by request along the run. -/
+def SysOK (d : Nat) (flt : Ev → Bool) : Sys → List (Bool × Op) → Prop
+  | _, [] => True
+  | σ, (rep, op) :: rs => NotRootAdd op ∧ FlagsKept σ.api op ∧ SysOK d flt (sysStep d flt σ rep op).1 rs
+
+theorem sys_history_synced (d : Nat) (flt : Ev → Bool) (hf : FilterOK flt) (rs : List (Bool × Op)) :
+    ∀ σ, Synced d σ → SysOK d flt σ rs → Synced d (sysRun d flt σ rs) := by
+  induction rs with
+  | nil => intro σ hS _; exact hS
+  | cons r rs ih =>
+    intro σ hS hok
+    obtain ⟨rep, op⟩ := r
+    obtain ⟨hop, hk, hrest⟩ := hok
+    simp only [sysRun]
+    exact ih _ (sys_step_synced d flt σ rep op hf hS hop hk) hrest
+
+/-- both replicas stay well-formed, agree with the API store, and are observably equal, whichever replica handles
+    each request and for every event filter that only drops no-change updates. -/
+theorem replicas_converge (d : Nat) (flt : Ev → Bool) (hf : FilterOK flt) (rs : List (Bool × Op)) :
+    ∀ σ, Synced d σ → SysOK d flt σ rs →
+      Synced d (sysRun d flt σ rs) ∧ Equiv (sysRun d flt σ rs).a (sysRun d flt σ rs).b := by
+  intro σ hS hok
+  have := sys_history_synced d flt hf rs σ hS hok
+  exact ⟨this, this.equiv⟩
+
+theorem replicas_converge_init (d : Nat) (flt : Ev → Bool) (hf : FilterOK flt) (rs : List (Bool × Op))
+    (hok : SysOK d flt sysInit rs) :
+    Synced d (sysRun d flt sysInit rs) ∧ Equiv (sysRun d flt sysInit rs).a (sysRun d flt sysInit rs).b :=
+  replicas_converge d flt hf rs sysInit (synced_init d) hok
+
+/-! ### 10. counterexamples and non-vacuity (concrete data, `d = 1`) -/
+
+def cxDept1 : QI := { name := 3, parent := 0, isParent := true, tree := 0, force := false, treeRoot := false,
+                      mn := [some 4], mx := [some 8], ns := [] }
+def cxDept2 : QI := { cxDept1 with name := 4 }
+def cxTeam : QI := { cxDept1 with name := 5, parent := 3, isParent := false, mn := [some 1] }
+
+/-- a. the generation-changed filter drops an update event that moves a quota under another parent. -/
+theorem genFilter_not_ok : ¬ FilterOK genFilter := by
+  intro h
+  obtain ⟨q, hq⟩ := h (.upd cxTeam { cxTeam with parent := 4 }) (by decide)
+  have h1 : cxTeam = q := by injection hq
+  have h2 : ({ cxTeam with parent := 4 } : QI) = q := by injection hq
+  exact absurd (h1.trans h2.symm) (by decide)
+
+/-- two departments and a team under the first one, all created through replica a; then the team is moved under the
+    second department, again through replica a. -/
+def cxHist : List (Bool × Op) :=
+  [(false, .add cxDept1 false), (false, .add cxDept2 false), (false, .add cxTeam false),
+   (false, .upd { cxTeam with parent := 4 } false false)]
+
+-- every request of the history is accepted, under either filter
+example : (sysStep 1 genFilter sysInit false (.add cxDept1 false)).2 = true ∧
+    (sysStep 1 genFilter (sysRun 1 genFilter sysInit (cxHist.take 1)) false (.add cxDept2 false)).2 = true ∧
+    (sysStep 1 genFilter (sysRun 1 genFilter sysInit (cxHist.take 2)) false (.add cxTeam false)).2 = true ∧
+    (sysStep 1 genFilter (sysRun 1 genFilter sysInit (cxHist.take 3)) false
+      (.upd { cxTeam with parent := 4 } false false)).2 = true := by decide
+
+/-- b. with the generation-changed filter replica b never learns about the move: it ACCEPTS the delete of the second
+    department, and the API store is left with a team whose parent does not exist. -/
+theorem generation_filter_counterexample :
+    (sysStep 1 genFilter (sysRun 1 genFilter sysInit cxHist) true (.del 4 false)).2 = true ∧
+    (∃ c ∈ (sysStep 1 genFilter (sysRun 1 genFilter sysInit cxHist) true (.del 4 false)).1.api,
+      c.parent = 4 ∧ find (sysStep 1 genFilter (sysRun 1 genFilter sysInit cxHist) true (.del 4 false)).1.api 4 = none) ∧
+    (sysRun 1 genFilter sysInit cxHist).a ≠ (sysRun 1 genFilter sysInit cxHist).b := by decide
+
+/-- the same history with today's unfiltered registration: the delete is rejected (by either replica). -/
+theorem unfiltered_rejects :
+    (sysStep 1 (fun _ => true) (sysRun 1 (fun _ => true) sysInit cxHist) true (.del 4 false)).2 = false ∧
+    (sysStep 1 (fun _ => true) (sysRun 1 (fun _ => true) sysInit cxHist) false (.del 4 false)).2 = false := by decide
+
+/-- the history meets every hypothesis of `replicas_converge` except `FilterOK`. -/
+theorem cxHist_sysOK : SysOK 1 genFilter sysInit (cxHist ++ [(true, .del 4 false)]) := by
+  refine ⟨show cxDept1.name ≠ 0 by decide, trivial, show cxDept2.name ≠ 0 by decide, trivial,
+    show cxTeam.name ≠ 0 by decide, trivial, trivial, ?_, trivial, trivial, trivial⟩
+  intro o hf hs
+  have : find (sysRun 1 genFilter sysInit (cxHist.take 3)).api 5 = some cxTeam := by decide
+  have hf : find (sysRun 1 genFilter sysInit (cxHist.take 3)).api 5 = some o := hf
+  rw [this] at hf
+  cases hf
+  revert hs
+  decide
+
+def cxP : QI := { name := 3, parent := 0, isParent := true, tree := 0, force := false, treeRoot := false,
+                  mn := [some 4], mx := [some 8], ns := [] }
+def cxA : QI := { cxP with name := 4, parent := 3, isParent := false, force := true, mn := [some 6] }
+
+def cxFlagHist : List Op := [.add cxP false, .add cxA false, .upd { cxA with force := false } false false]
+
+-- all three requests are accepted: the create of A by the allow-force-update bypass, the label removal by the
+-- unchanged-fields shortcut (the label is not among the compared fields)
+example : (stepEcho 1 init (.add cxP false)).2 = true ∧
+    (stepEcho 1 (runEcho 1 init (cxFlagHist.take 1)) (.add cxA false)).2 = true ∧
+    (stepEcho 1 (runEcho 1 init (cxFlagHist.take 2)) (.upd { cxA with force := false } false false)).2 = true ∧
+    sameFields cxA { cxA with force := false } = true := by decide
+
+/-- c. WITHOUT `FlagsKept`: the echo of the label removal records `force = false` for A although admission took the
+    shortcut and checked nothing; the recorded topology then violates the min-sum clause (A's min 6 > P's min 4). -/
+theorem flag_drop_counterexample : ¬ MinSum 1 (runEcho 1 init cxFlagHist) := by
+  intro h
+  have := h cxP (by decide) (by decide) 0 (by decide)
+  revert this
+  decide
+
+-- admission alone (no echo) keeps the old record, which satisfies the inequality for P (A still counts as bypassing)
+example : kidSum (run 1 init cxFlagHist).info cxP.name 0 ≤ cxP.mn.val 0 := by decide
+example : (run 1 init cxFlagHist).info = [cxA, cxP] ∧ (runEcho 1 init cxFlagHist).info = [{ cxA with force := false }, cxP] := by
+  decide
+-- and the hypothesis `FlagsKept` is exactly what fails on the third request
+example : ¬ FlagsKept (runEcho 1 init (cxFlagHist.take 2)).info (.upd { cxA with force := false } false false) := by
+  intro h
+  have := (h cxA (by decide) (by decide)).1
+  revert this
+  decide
+
+/-! non-vacuity of `EchoOK` / `history_echo_WF` -/
+
+def nvA : QI := { exA with ns := [7, 8] }
+def nvHist : List Op := [.add nvA false, .add exB false, .upd { nvA with ns := [8, 9] } false false,
+                         .upd { exB with mn := [some 3] } false false]
+
+theorem nvHist_echoOK : EchoOK 1 init nvHist := by
+  refine ⟨show nvA.name ≠ 0 by decide, trivial, show exB.name ≠ 0 by decide, trivial, trivial, ?_, trivial, ?_, trivial⟩
+  · intro o hf hs
+    have h3 : find (runEcho 1 init (nvHist.take 2)).info 3 = some nvA := by decide
+    have hf : find (runEcho 1 init (nvHist.take 2)).info 3 = some o := hf
+    rw [h3] at hf
+    cases hf
+    revert hs
+    decide
+  · intro o hf hs
+    have h4 : find (runEcho 1 init (nvHist.take 3)).info 4 = some exB := by decide
+    have hf : find (runEcho 1 init (nvHist.take 3)).info 4 = some o := hf
+    rw [h4] at hf
+    cases hf
+    revert hs
+    decide
+
+-- all four requests are accepted; the update that moves A's namespaces from [7,8] to [8,9] keeps 8 bound, unbinds 7,
+-- binds 9 — after the admission's own update AND the informer echo
+example : (stepEcho 1 init (.add nvA false)).2 = true ∧
+    (stepEcho 1 (runEcho 1 init (nvHist.take 1)) (.add exB false)).2 = true ∧
+    (stepEcho 1 (runEcho 1 init (nvHist.take 2)) (.upd { nvA with ns := [8, 9] } false false)).2 = true ∧
+    (stepEcho 1 (runEcho 1 init (nvHist.take 3)) (.upd { exB with mn := [some 3] } false false)).2 = true := by decide
+example : nsGet (runEcho 1 init nvHist).nsMap 8 = some 3 ∧ nsGet (runEcho 1 init nvHist).nsMap 7 = none ∧
+    nsGet (runEcho 1 init nvHist).nsMap 9 = some 3 := by decide
+example : WF 1 (runEcho 1 init nvHist) := reachable_echo_WF 1 nvHist nvHist_echoOK
+-- the echo is not literally a no-op on the list encoding (duplicates appear), only observably
+example : (runEcho 1 init nvHist) ≠ (run 1 init nvHist) ∧ (runEcho 1 init nvHist).info = (run 1 init nvHist).info := by decide
 
 end KoordVerif.C15
